@@ -83,7 +83,7 @@ var pureLib = map[string]bool{
 	"context.Context.Done": true, "context.Context.Err": false, "Context.Done": true, "Context.Err": false, "context.WithCancel": false, "context.WithTimeout": false, "context.WithDeadline": false,
 	"context.Background": false, "context.TODO": false, "context.WithValue": false, "context.Context.Value": true, "Context.Value": true,
 	"os.IsNotExist": true, "os.IsExist": true, "os.Getpid": false, "os.Getenv": false,
-	"io.Reader.Read": false, "bytes.Equal": true, "bytes.Compare": true, "bytes.NewReader": false, "bytes.NewBuffer": false, "bytes.NewBufferString": false,
+	"io.Reader.Read": false, "io.ReadCloser.Close": false, "io.Closer.Close": false, "ReadCloser.Close": false, "Closer.Close": false, "bytes.TrimSpace": false, "bytes.Equal": true, "bytes.Compare": true, "bytes.NewReader": false, "bytes.NewBuffer": false, "bytes.NewBufferString": false,
 	"io/ioutil.NopCloser": false, "ioutil.NopCloser": false, "io.MultiReader": false, "io.TeeReader": false, "io.LimitReader": false,
 	"math.MaxInt64": true, "math.Ceil": true, "math.Floor": true,
 	"http.ResponseWriter.Header": true, "ResponseWriter.Header": true, "http.Header.Set": false, "http.Header.Add": false, "http.Header.Del": false,
@@ -172,6 +172,7 @@ func init() {
 		}
 	}
 	libWriteSets["strings.Split"] = memWS(types.Typ[types.String])
+	libWriteSets["strings.SplitN"] = memWS(types.Typ[types.String])
 	libWriteSets["regexp.Regexp.FindStringSubmatch"] = memWS(types.Typ[types.String])
 	for _, k := range []string{"md5.New", "sha1.New", "hmac.New"} {
 		libWriteSets[k] = func(fc *FnCtx, c ssa.CallInstruction) *WriteSet {
@@ -476,17 +477,24 @@ func modelSplit(fc *FnCtx, s *CallSite) bool {
 	}
 	e.GAxiom("split_nosep_one", "(assert (forall ((s String) (p String)) (! (=> (and (> (str.len p) 0) (not (str.contains s p))) (= (splitcount s p) 1)) :pattern ((splitcount s p)))))", "splitcount")
 	str, sep := s.args[0], s.args[1]
-	if len(s.args) == 3 {
-		// SplitN: only n < 0 or "large n" is modelled exactly
-		fc.warn("strings.SplitN is modelled as strings.Split (exact only when the limit is not reached)")
-		return false
-	}
 	r := fc.newRef()
 	mem := fc.memVar(types.Typ[types.String])
 	row := fc.freshConst("splitrow", ArraySort(SInt, SString))
+	n := T(SInt, "(splitcount %s %s)", str.S, sep.S)
+	if len(s.args) == 3 {
+		// SplitN(s, sep, k), k > 0: at most k parts; all but the last returned
+		// part are the parts of Split; the last one is the unsplit remainder.
+		k := s.args[2]
+		cnt := fc.freshConst("splitn", SInt)
+		fc.assume(T(SBool, "(= %s (ite (and (> %s 0) (< %s %s)) %s %s))", cnt.S, k.S, k.S, n.S, k.S, n.S))
+		fc.assume(T(SBool, "(forall ((i Int)) (! (=> (or (< i (- %s 1)) (= %s %s)) (= (select %s i) (splitpart %s %s i))) :pattern ((select %s i))))", cnt.S, cnt.S, n.S, row.S, str.S, sep.S, row.S))
+		fc.assign(mem, Store(fc.lookup(mem), r, row))
+		s.results = []Term{T(SSlice, "(mkslice %s 0 %s %s)", r.S, cnt.S, cnt.S)}
+		fc.assumeNote("strings.SplitN with a zero limit is not modelled (returns nil)")
+		return true
+	}
 	fc.assume(T(SBool, "(forall ((i Int)) (! (= (select %s i) (splitpart %s %s i)) :pattern ((select %s i))))", row.S, str.S, sep.S, row.S))
 	fc.assign(mem, Store(fc.lookup(mem), r, row))
-	n := T(SInt, "(splitcount %s %s)", str.S, sep.S)
 	s.results = []Term{T(SSlice, "(mkslice %s 0 %s %s)", r.S, n.S, n.S)}
 	return true
 }
